@@ -96,6 +96,21 @@ def label_pool(draw, kind: str, ngroups: int):
         pool = [0, 1, 2, 3, 5, 9, 200, 250] if kind != "i2" else [-300, -1, 0, 1, 2, 5, 9, 300]
     else:
         raise KeyError(kind)
+    if ngroups > len(pool):
+        # many groups: extend the pool deterministically (numpy / pandas switch algorithms with the number of labels)
+        k = ngroups - len(pool)
+        if kind in ("int", "negint", "bigint", "i2"):
+            pool = pool + [1000 + 3 * i for i in range(k)]
+        elif kind in ("float", "floatint", "f4"):
+            pool = pool + [20.0 + 0.5 * i for i in range(k)]
+        elif kind == "str":
+            pool = pool + [f"s{i:02d}" for i in range(k)]
+        elif kind == "datetime":
+            pool = pool + [10**15 + 10**9 * i for i in range(k)]
+        elif kind == "u8":
+            pool = pool + [300 + i for i in range(k)]
+        else:  # u1: stay within the dtype
+            pool = sorted(set(pool) | set(range(10, 10 + k)))
     perm = draw(st.permutations(pool))
     return list(perm[: min(ngroups, len(pool))])
 
